@@ -97,6 +97,13 @@ const METAS: &[PropMeta] = &[
         assumptions: &["hook H1 (feature verif-hooks) returns the cache map contents under its RwLock", "the limit clause is evaluated after appends only (the only writes that insert and evict)"],
         min_distinct: 20,
     },
+    PropMeta {
+        id: "C14",
+        level: "exploration",
+        rule: "purge-heavy scheduled histories (tiny chunks) end with purge + flush(callback); the worker is stepped exactly until that callback has fired, which typically leaves it parked in front of its queued unlink/write calls; the store is then dropped on a helper thread and the directory reopened at a seeded placement: 0 right after drop returned, 1 after the old worker advanced k calls, 2 with the new opener parked inside open() (after listing the directory) while the old worker performs its remaining calls, 3 after the old worker ended. Oracles: no directory-mutating call of the dropped instance's worker thread appears in the trace after drop() returned; the reopen succeeds and shows exactly the acknowledged state and entries; the new instance appends, purges, flushes and is acknowledged Ok. Sound for a detached worker and for a joining Drop (then drop only returns once the released worker has ended). Non-trivial = case in which worker calls were still pending at drop; distinct = distinct (history, schedule, placement).",
+        assumptions: &["a 50 ms wait decides only when the parked worker is released, never a verdict", "same-process reopen; cross-process reopen differs only in the flock, which C13 covers"],
+        min_distinct: 20,
+    },
 ];
 
 fn meta(prop: &str) -> Option<&'static PropMeta> {
@@ -111,6 +118,7 @@ fn run_shard(ctx: &mut Ctx) {
         "C08" => props::c08::run_shard(ctx),
         "C03" | "C05" => props::crash::run_shard(ctx),
         "C07" | "C15" => props::cache::run_shard(ctx),
+        "C14" => props::c14::run_shard(ctx),
         p => ctx.out.inconclusive.push(format!("no engine for {}", p)),
     }
 }
@@ -243,6 +251,7 @@ fn cmd_replay(args: &[String]) -> i32 {
         "c04" => props::c04::replay(rp),
         "c08" => props::c08::replay(rp),
         "crash" => props::crash::replay(rp),
+        "c14" => props::c14::replay(rp),
         "c07" => props::cache::replay(rp, true),
         "c15" => props::cache::replay(rp, false),
         k => {
